@@ -178,6 +178,19 @@ theorem bytes_complete_in_order (evs : List Ev) :
   rw [h, ← i]
   exact this
 
+/-- T4' (every promise fulfilled once the peer keeps reading — the liveness clause of C06, at the level of the interest
+    protocol): after ANY event sequence, once the queue has been emptied (which `room_then_writable_delivers` guarantees as soon
+    as the peer makes room), the promises fulfilled so far are exactly the writes issued, in issue order. -/
+theorem drained_all_fulfilled (evs : List Ev) (h : (run cfg0 evs {}).w.queue = []) :
+    (run cfg0 evs {}).w.settled.map (·.1) = (enqs evs).map (·.1) := by
+  obtain ⟨ops, hw, i⟩ := run_refines_from cfg0 evs {}
+  have := WriteQueue.Props.promise_order ops
+  unfold WriteQueue.run at this
+  rw [hw] at h ⊢
+  rw [h] at this
+  rw [← i]
+  simpa using this
+
 /-! ### Why every would-block must request write interest again
 
 With a would-block branch that re-arms only when the entry has no resume offset yet, a buffer that blocks a second time after
